@@ -77,6 +77,7 @@ type Config struct {
 	Hb           int    // heartbeat interval (initiator: configured; acceptor: whatever the peer's Logon says)
 	Buf          int    // channel buffer size
 	CloseTimeout time.Duration
+	ZeroClose    bool // CloseTimeout really is zero (otherwise zero means the default of 5 s)
 	Counter      session.CounterStorage // optional instrumented stores
 	Messages     session.MessageStorage
 	WriteTimeout time.Duration
@@ -105,7 +106,7 @@ func Start(cfg Config) (*Live, error) {
 	if cfg.WriteTimeout == 0 {
 		cfg.WriteTimeout = 5 * time.Second
 	}
-	if cfg.CloseTimeout == 0 {
+	if cfg.CloseTimeout == 0 && !cfg.ZeroClose {
 		cfg.CloseTimeout = 5 * time.Second
 	}
 	l := &Live{Cfg: cfg, Served: make(chan error, 1), In: make(chan Msg, 100000), EOF: make(chan struct{}),
